@@ -11,7 +11,7 @@ use std::panic::{catch_unwind, AssertUnwindSafe};
 pub struct Replace;
 
 fn templates() -> Vec<&'static str> {
-    vec!["", "X", "-é-", "$0", "[$1]", "${1}x", "$$", "$0$0", "${n}", "$n!", "a$", "\\1"]
+    vec!["", "X", "-é-", "$0", "[$1]", "${1}x", "$$", "$0$0", "${n}", "$n!", "a$", "\\1", "$\u{540d}", "[$\u{f1}]", "$\u{e9}mail/$\u{540d}", "$-1", "$-", "$\u{b2}", "$ $"]
 }
 
 fn check(pattern: &str, text: &str, bl: Option<usize>) -> Option<String> {
